@@ -1,6 +1,7 @@
 import QuaiVerif.Driver.KV
 import QuaiVerif.Driver.Addr
 import QuaiVerif.Driver.State
+import QuaiVerif.Driver.Evm
 /- qvdriver: `qvdriver <area>` reads protocol lines on stdin, answers one line per line. -/
 open QuaiVerif
 
@@ -10,5 +11,6 @@ def main (args : List String) : IO UInt32 := do
   match args with
   | ["kv"] => ioLoop KV.step stdin stdout {}; return 0
   | ["state"] => ioLoop State.step stdin stdout {}; return 0
+  | ["evm"] => ioLoop Etx.step stdin stdout (); return 0
   | ["addr"] => ioLoop Addr.step stdin stdout {}; return 0
   | _ => IO.eprintln "usage: qvdriver <area>"; return 2
